@@ -112,7 +112,8 @@ pub fn jobs(id: &str, thorough: bool) -> Vec<Job> {
         "C08" => v = life_jobs(&["C08"], thorough, false),
         "C03" => {
             for c in scen::s_amt() {
-                v.push(w(c, &["C03"], if thorough { 2 } else { 1 }, false));
+                let slow = c.name.ends_with("slow-store");
+                v.push(w(c, &["C03"], if thorough { if slow { 3 } else { 2 } } else if slow { 2 } else { 1 }, false));
             }
             v.push(w(scen::s_life("S-life/2htlc+extra", true, true, false), &["C03"], if thorough { 3 } else { 2 }, true));
         }
